@@ -105,29 +105,37 @@ Definition open_run (h : hooks) (md : md_t) (r : open_req) : md_t * outcome :=
 (* ---- histories: calls RE(plan, **kw), each a list of open_run/close_run messages whose
         exceptions the plan catches ---- *)
 
-Inductive op := Open (kw : md_t) | Close.
+(* a run key (msg.run): None is the default key; several runs may be open at once under different keys *)
+Definition rkey := option N.
+Definition rkey_eqb (a b : rkey) : bool := option_beq N.eqb a b.
+Definition key_mem (k : rkey) (l : list rkey) : bool := existsb (rkey_eqb k) l.
+Definition key_remove (k : rkey) (l : list rkey) : list rkey := filter (fun x => negb (rkey_eqb k x)) l.
+
+Inductive op := Open (key : rkey) (kw : md_t) | Close (key : rkey).
 
 Record call := {
   c_hooks : hooks; c_kw : md_t; c_type : N; c_name : N; c_ops : list op
 }.
 
-(* per message: what happened, RE.md afterwards, is a run open afterwards *)
-Definition step_obs := (outcome * md_t * bool)%type.
+(* per message: what happened, RE.md afterwards, the keys of self._run_bundlers afterwards *)
+Definition step_obs := (outcome * md_t * list rkey)%type.
 
-Definition do_op (c : call) (st : md_t * bool) (o : op) : (md_t * bool) * outcome :=
-  let (md, is_open) := st in
+(* one open_run / close_run message; state = RE.md and the keys of the open runs (insertion order).
+   "run_key in self._run_bundlers" is tested BEFORE scan_id_source is called. *)
+Definition do_op (c : call) (st : md_t * list rkey) (o : op) : (md_t * list rkey) * outcome :=
+  let (md, opens) := st in
   match o with
-  | Open kw =>
-      if is_open then ((md, true), Illegal)
+  | Open key kw =>
+      if key_mem key opens then ((md, opens), Illegal)
       else
         match open_run (c_hooks c) md {| call_kw := c_kw c; open_kw := kw; plan_type := c_type c; plan_name := c_name c |} with
-        | (md', Started doc) => ((md', true), Started doc)
-        | (md', out) => ((md', false), out)
+        | (md', Started doc) => ((md', opens ++ [key]), Started doc)
+        | (md', out) => ((md', opens), out)
         end
-  | Close => if is_open then ((md, false), Closed) else ((md, false), Illegal)
+  | Close key => if key_mem key opens then ((md, key_remove key opens), Closed) else ((md, opens), Illegal)
   end.
 
-Fixpoint do_ops (c : call) (st : md_t * bool) (ops : list op) : (md_t * bool) * list step_obs :=
+Fixpoint do_ops (c : call) (st : md_t * list rkey) (ops : list op) : (md_t * list rkey) * list step_obs :=
   match ops with
   | [] => (st, [])
   | o :: ops' =>
@@ -139,9 +147,9 @@ Fixpoint do_ops (c : call) (st : md_t * bool) (ops : list op) : (md_t * bool) * 
       end
   end.
 
-(* one RE(...) call: starts with no run open; a run left open is closed by the engine at the end *)
+(* one RE(...) call: starts with no run open; runs left open are closed by the engine at the end *)
 Definition do_call (md : md_t) (c : call) : md_t * list step_obs :=
-  match do_ops c (md, false) (c_ops c) with
+  match do_ops c (md, []) (c_ops c) with
   | ((md', _), obs) => (md', obs)
   end.
 
@@ -223,8 +231,11 @@ Definition outcome_beq (a b : outcome) : bool :=
   | Illegal, Illegal | Closed, Closed => true
   | _, _ => false
   end.
+(* the open-run keys are compared as sets (dict key order is not part of the observation) *)
+Definition keys_beq (a b : list rkey) : bool :=
+  forallb (fun k => key_mem k b) a && forallb (fun k => key_mem k a) b.
 Definition step_beq (a b : step_obs) : bool :=
-  outcome_beq (fst (fst a)) (fst (fst b)) && dict_beq val_eqb (snd (fst a)) (snd (fst b)) && Bool.eqb (snd a) (snd b).
+  outcome_beq (fst (fst a)) (fst (fst b)) && dict_beq val_eqb (snd (fst a)) (snd (fst b)) && keys_beq (snd a) (snd b).
 Definition hist_beq (a b : md_t * list (list step_obs)) : bool :=
   dict_beq val_eqb (fst a) (fst b) && list_beq (list_beq step_beq) (snd a) (snd b).
 
